@@ -328,7 +328,9 @@ def nodeOk (R : RParser) (D : ToDom) (opts : Opts) (pt : TypeId) : Node → Bool
        (!isWrapper D t a || (kids.all Node.isLeaf && kids.all (fun k => k.marks.isEmpty))) &&
        (!listTags.contains tag || kids.all (fun k => !listTags.contains (prevTag R D k))) &&
        -- marked children only where all children are leaves (the children of a textblock)
-       (kids.all Node.isLeaf || kids.all (fun k => k.marks.isEmpty)))
+       (kids.all Node.isLeaf || kids.all (fun k => k.marks.isEmpty)) &&
+       -- a list element does not consist of leaves only
+       (!listTags.contains tag || kids.isEmpty || !kids.all Node.isLeaf))
 def kidsOk (R : RParser) (D : ToDom) (opts : Opts) (pt : TypeId) (prev : Option (Node × String)) : List Node → Bool
   | [] => true
   | k :: ks =>
